@@ -1,6 +1,7 @@
 // E9 (C13) correspondence harness: the real startKeepalive under testing/synctest virtual time,
 // (a) with a scripted keepaliveSession whose Ping blocks for a scripted virtual duration and honours
-// its context, (b) through real ServerSession / ClientSession objects (KeepAlive and
+// its context — or, on script, OVERRUNS it: returns only after a duration beyond its deadline, the way a
+// jsonrpc2 call does whose transport write is blocked because the peer does not read —, (b) through real ServerSession / ClientSession objects (KeepAlive and
 // KeepAliveFailureThreshold options) against a raw JSON-RPC peer that answers or drops pings on script.
 package mcp
 
@@ -25,8 +26,77 @@ import (
 )
 
 type kaStep struct {
-	kind byte  // 'a' answer, 'm' method-not-found, 'e' other error, 'n' never reacts
+	kind byte  // 'a' answer, 'm' method-not-found, 'e' other error, 'n' never reacts; 'A' 'M' 'E': the same results from a Ping that ignores its deadline
 	d    int64 // ns after the ping was issued
+}
+
+func (st kaStep) overruns() bool { return st.kind == 'A' || st.kind == 'M' || st.kind == 'E' }
+
+// kaDur: how long the ping of this step lasts (interval I).
+func (st kaStep) dur(I int64) int64 {
+	if st.overruns() {
+		return st.d
+	}
+	if st.kind == 'n' || st.d >= I/2 {
+		return I / 2
+	}
+	return st.d
+}
+
+// kaSchedule: the instants at which a loop that goes on pinging issues the pings of script and at which
+// they end (generator aid: used to place the cancellation and to keep ends off the tick grid).
+func kaSchedule(I int64, script []kaStep) (starts, ends []int64) {
+	last, free := int64(0), int64(0)
+	for _, st := range script {
+		p := (last/I + 1) * I
+		if free > p {
+			p = free
+		}
+		starts, ends = append(starts, p), append(ends, p+st.dur(I))
+		last, free = p, p+st.dur(I)
+	}
+	return
+}
+
+// kaOffGrid lengthens overruns so that no ping ends on a tick instant that fires while it is in flight (a
+// ping that ends exactly when a tick fires leaves the order of the two to the scheduler).  Pings that
+// honour their deadline and are issued on a tick end before the next one; others are issued the moment
+// an overrunning ping ends, so lengthening that one moves them.
+func kaOffGrid(I int64, script []kaStep) {
+	for iter := 0; iter < 10000; iter++ {
+		starts, ends := kaSchedule(I, script)
+		bad := -1
+		for i := range script {
+			if ends[i]%I == 0 && ends[i] > starts[i] {
+				bad = i
+				break
+			}
+		}
+		for bad >= 0 && !script[bad].overruns() {
+			bad--
+		}
+		if bad < 0 {
+			return
+		}
+		script[bad].d++
+	}
+}
+
+// kaFreeInstant moves tc forward to an instant that is neither a tick nor the start or end of a ping.
+func kaFreeInstant(I int64, script []kaStep, tc int64) int64 {
+	starts, ends := kaSchedule(I, script)
+	for {
+		clash := tc%I == 0
+		for i := range starts {
+			if tc == starts[i] || tc == ends[i] {
+				clash = true
+			}
+		}
+		if !clash {
+			return tc
+		}
+		tc++
+	}
 }
 
 type kaCase struct {
@@ -88,7 +158,7 @@ func kaParse(op string) (*kaCase, bool) {
 				continue
 			}
 			d, err := strconv.ParseInt(p[1:], 10, 64)
-			if err != nil || !strings.ContainsRune("ame", rune(p[0])) || d < 0 {
+			if err != nil || !strings.ContainsRune("ameAME", rune(p[0])) || d < 0 {
 				return nil, false
 			}
 			c.script = append(c.script, kaStep{p[0], d})
@@ -113,6 +183,19 @@ type kaSess struct {
 }
 
 func (s *kaSess) Ping(ctx context.Context, _ *PingParams) error {
+	if err := ctx.Err(); err != nil {
+		// like jsonrpc2.Connection.Call on a context that has already ended: nothing is sent
+		s.mu.Lock()
+		if !s.over {
+			now := time.Since(s.t0).Nanoseconds()
+			s.pings = append(s.pings, now)
+			dl, _ := ctx.Deadline()
+			s.tos = append(s.tos, dl.Sub(s.t0).Nanoseconds()-now)
+			s.idx++
+		}
+		s.mu.Unlock()
+		return err
+	}
 	s.mu.Lock()
 	if s.over {
 		// The scenario is over (cancelled or closed long ago) and the loop still pings: a leaked
@@ -139,17 +222,24 @@ func (s *kaSess) Ping(ctx context.Context, _ *PingParams) error {
 		<-ctx.Done()
 		return ctx.Err()
 	}
-	tm := time.NewTimer(time.Duration(st.d))
-	defer tm.Stop()
-	select {
-	case <-tm.C:
-	case <-ctx.Done():
-		return ctx.Err()
+	if st.overruns() {
+		time.Sleep(time.Duration(st.d)) // the write is blocked: the deadline passes unnoticed
+		if err := ctx.Err(); err != nil && st.kind == 'E' && n%2 == 0 {
+			return err // what Call reports once the write is through and the deadline has passed
+		}
+	} else {
+		tm := time.NewTimer(time.Duration(st.d))
+		defer tm.Stop()
+		select {
+		case <-tm.C:
+		case <-ctx.Done():
+			return ctx.Err()
+		}
 	}
 	switch st.kind {
-	case 'a':
+	case 'a', 'A':
 		return nil
-	case 'm':
+	case 'm', 'M':
 		switch n % 3 {
 		case 0:
 			return jsonrpc2.ErrMethodNotFound
@@ -202,6 +292,23 @@ func kaInts(l []int64) string {
 	return strings.Join(q, ",")
 }
 
+// kaTos renders what each ping was given until its deadline: one value when all are equal, else all of them.
+func kaTos(tos []int64) string {
+	if len(tos) == 0 {
+		return "-"
+	}
+	same := true
+	q := make([]string, len(tos))
+	for i, v := range tos {
+		q[i] = strconv.FormatInt(v, 10)
+		same = same && v == tos[0]
+	}
+	if same {
+		return q[0]
+	}
+	return strings.Join(q, "/")
+}
+
 // kaRunScripted runs one scenario on the real startKeepalive with the scripted session.
 // onLeak is called, still inside the bubble, when a loop goroutine survives the scenario: a durably
 // blocked goroutine makes synctest abort the process when the bubble ends, so the record must be
@@ -221,7 +328,13 @@ func kaRunScripted(t *testing.T, c *kaCase, onLeak func(obs string)) (obs string
 		time.Sleep(time.Duration(c.tc))
 		synctest.Wait()
 		cancel()
-		time.Sleep(I) // a ping in flight at the cancellation still runs into its own deadline
+		rest := I // a ping in flight at the cancellation still runs into its own deadline …
+		for _, st := range c.script {
+			if d := time.Duration(st.d) + I; st.overruns() && d > rest {
+				rest = d // … or until its blocked write is through
+			}
+		}
+		time.Sleep(time.Duration(rest))
 		synctest.Wait()
 		s.mu.Lock()
 		s.over = true
@@ -231,14 +344,7 @@ func kaRunScripted(t *testing.T, c *kaCase, onLeak func(obs string)) (obs string
 		alive := kaLoopGoroutines()
 		s.mu.Lock()
 		defer s.mu.Unlock()
-		to := "-"
-		for i, v := range s.tos {
-			if i == 0 {
-				to = strconv.FormatInt(v, 10)
-			} else if strconv.FormatInt(v, 10) != to {
-				to = "mixed"
-			}
-		}
+		to := kaTos(s.tos)
 		exit := 1
 		if alive > 0 {
 			exit = 0
@@ -254,12 +360,12 @@ func kaRunScripted(t *testing.T, c *kaCase, onLeak func(obs string)) (obs string
 // kaPeer is the raw JSON-RPC peer of a real session: it answers initialize (client side), and
 // treats pings according to the script.
 type kaPeer struct {
-	mu     sync.Mutex
-	t0     time.Time
+	mu      sync.Mutex
+	t0      time.Time
 	started bool
-	script []kaStep
-	idx    int
-	pings  []int64
+	script  []kaStep
+	idx     int
+	pings   []int64
 }
 
 func (p *kaPeer) serve(ctx context.Context, conn Connection) {
@@ -408,13 +514,33 @@ func kaTags(c *kaCase, obs string) []string {
 		tags = append(tags, "not-closed")
 	}
 	for _, st := range c.script {
-		if st.kind == 'm' && st.d < c.I/2 {
+		if (st.kind == 'm' && st.d < c.I/2) || st.kind == 'M' {
 			tags = append(tags, "has-method-not-found")
 			break
 		}
 	}
-	if off := c.tc % c.I; off <= c.I/2 {
+	starts, ends := kaSchedule(c.I, c.script)
+	during, pending, overrun := false, false, false
+	for i, st := range c.script {
+		if starts[i] >= c.tc {
+			break
+		}
+		if st.overruns() && st.d > c.I/2 {
+			overrun = true
+		}
+		if starts[i] < c.tc && c.tc <= ends[i] {
+			during = true
+			pending = ends[i] > (starts[i]/c.I+1)*c.I
+		}
+	}
+	if overrun {
+		tags = append(tags, "has-overrun")
+	}
+	if during {
 		tags = append(tags, "cancel-during-ping")
+	}
+	if pending {
+		tags = append(tags, "cancel-with-tick-pending")
 	}
 	return tags
 }
@@ -460,6 +586,49 @@ func kaPattern(I int64, code, n int) []kaStep {
 	return out
 }
 
+// kaOverrun: a deterministic overrun for position i: the blocked write is through after a bit more than
+// half an interval (no tick missed), 1.3 (one tick pending, served 0.3 after it was due), 1.6 (served
+// 0.6 after it was due), 2.6 and 3.1 intervals (one tick pending, the others dropped); the result is an
+// error, now and then nil or method-not-found (the answer raced the deadline).
+func kaOverrun(I int64, i int) kaStep {
+	d := []int64{I/2 + I/5, I + 3*I/10, I + 6*I/10, 2*I + 6*I/10, 3*I + I/10}[i%5] + int64(i%3)
+	return kaStep{[]byte{'E', 'E', 'E', 'A', 'E', 'E', 'M'}[(i/5)%7], d}
+}
+
+// kaPattern5: like kaPattern with a fifth outcome (digit 4): the ping overruns its deadline.
+func kaPattern5(I int64, code, n int) []kaStep {
+	out := make([]kaStep, n)
+	c4 := 0 // the digits below 4, as a base-4 code for kaPattern's choices
+	for i, c := 0, code; i < n; i, c = i+1, c/5 {
+		c4 = c4*4 + (c%5)%4
+	}
+	for i := 0; i < n; i++ {
+		if code%5 == 4 {
+			out[i] = kaOverrun(I, i+code/5)
+		} else {
+			out[i] = kaPattern(I, (code%5)+4*((c4+i)%64), 1)[0]
+		}
+		code /= 5
+	}
+	kaOffGrid(I, out)
+	return out
+}
+
+// kaAfter: a cancellation instant after the last ping of script has been issued: between its end and the
+// next tick when there is such a gap, else (a tick is pending when it ends) while it is in flight.
+func kaAfter(I int64, script []kaStep) int64 {
+	if len(script) == 0 {
+		return kaBetween(I, 0)
+	}
+	starts, ends := kaSchedule(I, script)
+	n := len(script) - 1
+	next := (starts[n]/I + 1) * I
+	if ends[n] < next {
+		return kaFreeInstant(I, script, ends[n]+(next-ends[n]+1)/2)
+	}
+	return kaFreeInstant(I, script, starts[n]+(ends[n]-starts[n])/3+1)
+}
+
 // kaBetween: an instant strictly between the end of ping n (at most n·I + I/2) and tick n+1.
 func kaBetween(I int64, n int) int64 {
 	return int64(n)*I + I/2 + (I-I/2+1)/2
@@ -473,6 +642,8 @@ func kaRandom(rng *rand.Rand, maxLen, maxT int, real string) *kaCase {
 	}
 	n := rng.Intn(maxLen + 1)
 	pAns := []int{10, 30, 50, 70, 90}[rng.Intn(5)]
+	pOver := []int{0, 0, 10, 25}[rng.Intn(4)] // share of pings that overrun their deadline
+	over := false
 	for i := 0; i < n; i++ {
 		r := rng.Intn(100)
 		switch {
@@ -488,10 +659,25 @@ func kaRandom(rng *rand.Rand, maxLen, maxT int, real string) *kaCase {
 				c.script[i] = kaStep{'n', 0}
 			}
 		}
+		if real == "" && c.I >= 1000 && rng.Intn(100) < pOver {
+			c.script[i] = kaOverrun(c.I, rng.Intn(35))
+			c.script[i].d += rng.Int63n(c.I / 10)
+			over = true
+		}
 	}
 	k := n
 	if rng.Intn(3) == 0 {
 		k = rng.Intn(n + 1)
+	}
+	if over {
+		// the pings are not on the tick grid: place the cancellation on the schedule
+		kaOffGrid(c.I, c.script)
+		c.tc = kaAfter(c.I, c.script[:k])
+		if k > 0 && rng.Intn(3) == 0 {
+			starts, ends := kaSchedule(c.I, c.script[:k])
+			c.tc = kaFreeInstant(c.I, c.script, starts[k-1]+1+rng.Int63n(ends[k-1]-starts[k-1]+1)) // while ping k is in flight
+		}
+		return c
 	}
 	c.tc = kaBetween(c.I, k)
 	if real == "" && c.I >= 7 && k > 0 && rng.Intn(4) == 0 {
@@ -566,6 +752,26 @@ func TestVerifKeepAlive(t *testing.T) {
 			for code := 0; code < total; code++ {
 				for T := 0; T <= 3; T++ {
 					emit("x", &kaCase{I: I, T: T, script: kaPattern(I, code, l), tc: kaBetween(I, l)})
+				}
+			}
+		}
+	}
+	if os.Getenv("VERIF_CASES") == "" {
+		// exhaustive with a fifth outcome — the ping overruns its deadline —: every pattern of length <= 5
+		// that contains an overrun x thresholds 0..3; the cancellation comes after the last ping was issued
+		const I = 1000
+		for l, total := 1, 5; l <= 5; l, total = l+1, total*5 {
+			for code := 0; code < total; code++ {
+				has := false
+				for c := code; c > 0; c /= 5 {
+					has = has || c%5 == 4
+				}
+				if !has {
+					continue
+				}
+				sc := kaPattern5(I, code, l)
+				for T := 0; T <= 3; T++ {
+					emit("o", &kaCase{I: I, T: T, script: sc, tc: kaAfter(I, sc)})
 				}
 			}
 		}
